@@ -27,7 +27,7 @@ Proof.
     rewrite forallb_forall in H. apply H in Hin. apply Z.eqb_eq in Hin. auto.
 Qed.
 
-(* TypeSum(t, p) admits exactly what t admits, and p *)
+(* TypeSum(t, p) accepts exactly what t accepts, and p *)
 Lemma prim_is_type_sum : forall q t p, prim_is q (type_sum_prim t p) = prim_is q t || (q =? p).
 Proof.
   intros. unfold type_sum_prim.
@@ -90,7 +90,7 @@ Theorem csv_values_match_schema : forall ncols rows tys,
 Proof. intros. apply exec_row_sound. Qed.
 
 (* ---- the previewed rows are never errors ----------------------------------------------------------- *)
-(* a column type covers a cell when it admits the kind the inference saw, or the cell is an integer text
+(* a column type covers a cell when it accepts the kind the inference saw, or the cell is an integer text
    and the column is (also) Float *)
 Definition covered (t : fty) (c : cell) : bool :=
   prim_is (kid (cell_kind c)) t ||
